@@ -6,7 +6,10 @@ below / the *input* (exact-out) is above the threshold, using the right leg and 
 that check precedes every state change; the limit defaults, bound and direction checks
 and the zero-amount check in the swap loop precede the loop; the exact-out partial-fill
 rejection; the per-step price target clamp; the amount accounting of the loop (checked
-arithmetic with error propagation, which accumulator becomes amount_a / amount_b).
+arithmetic with error propagation, which accumulator becomes amount_a / amount_b); the
+trader's amount and each pool's own price limit reach the engine unchanged (v2 exact-in
+charges `amount` or the fee-included swap input on the input mint; two-hop legs are wired
+to their own pool / limit / direction / oracle).
 Not decided: that the loop never overshoots, final price == limit on partial fills,
 behaviour over reachable pool states."""
 from analysis import cfg, atoms as A, preach
